@@ -312,14 +312,21 @@ type importJob struct {
 
 func importWorker(importWork chan importJob) {
 	for j := range importWork {
-		err := func() error {
+		err := func() (err error) {
+			// this goroutine serves every roaring import of the process: a panic
+			// while decoding one request's payload must fail that request only
+			defer func() {
+				if r := recover(); r != nil {
+					err = fmt.Errorf("importing roaring data: %v", r)
+				}
+			}()
 			for viewName, viewData := range j.req.Views {
 				if viewName == "" {
 					viewName = viewStandard
 				} else {
 					viewName = fmt.Sprintf("%s_%s", viewStandard, viewName)
 				}
-				if len(viewData) == 0 {
+				if len(viewData) < 2 {
 					return fmt.Errorf("no data to import for view: %s", viewName)
 				}
 				fileMagic := uint32(binary.LittleEndian.Uint16(viewData[0:2]))
